@@ -19,6 +19,7 @@ import (
 	"github.com/apache/arrow-go/v18/parquet/file"
 	"github.com/apache/arrow-go/v18/parquet/pqarrow"
 	"github.com/gofiber/fiber/v2"
+	"github.com/rs/zerolog"
 	"github.com/valyala/fasthttp"
 
 	"github.com/basekick-labs/arc/internal/api"
@@ -80,6 +81,56 @@ func (f *faultBackend) Write(ctx context.Context, path string, data []byte) erro
 	return err
 }
 
+// execTrace is when (simulated monotonic ns) an execution selected its window
+// and when it reported its outcome, taken from the handler's own log lines
+// ("Executing ... continuous query" carries the execution id; the outcome line
+// is written by the same task). Only used to name the circumstance of a
+// violation, never to decide whether there is one.
+type execTrace struct {
+	selectNs int64
+	doneNs   int64
+	done     bool
+}
+
+type logCapture struct {
+	byTask map[int]string
+	tr     map[string]*execTrace
+}
+
+func (c *logCapture) Write(b []byte) (int, error) {
+	if os.Getenv("VERIF_LOG") != "" {
+		os.Stderr.Write(b)
+	}
+	if !bytes.Contains(b, []byte("ontinuous query")) {
+		return len(b), nil
+	}
+	var m struct {
+		Message string `json:"message"`
+		ExecID  string `json:"execution_id"`
+	}
+	if json.Unmarshal(b, &m) != nil {
+		return len(b), nil
+	}
+	t := simrt.CurTask()
+	if t == nil {
+		return len(b), nil
+	}
+	switch m.Message {
+	case "Executing scheduled continuous query", "Executing continuous query":
+		if m.ExecID != "" {
+			c.byTask[t.ID()] = m.ExecID
+			c.tr[m.ExecID] = &execTrace{selectNs: simrt.SimNow()}
+		}
+	case "Scheduled continuous query completed", "Continuous query completed",
+		"Scheduled continuous query execution failed", "Continuous query execution failed":
+		if id, ok := c.byTask[t.ID()]; ok {
+			c.tr[id].doneNs, c.tr[id].done = simrt.SimNow(), true
+			delete(c.byTask, t.ID())
+		}
+	}
+	return len(b), nil
+}
+
 const (
 	cqDB  = "prod"
 	cqSrc = "cpu"
@@ -101,11 +152,13 @@ type node struct {
 	handler fasthttp.RequestHandler
 	boots   int
 	up      bool
+	logs    *logCapture
 }
 
 func newNode(root string, k Knobs) *node {
 	n := &node{root: root, knobs: k, dataDir: filepath.Join(root, "data")}
 	n.sn = simrt.NodeOf("n1")
+	n.logs = &logCapture{byTask: map[int]string{}, tr: map[string]*execTrace{}}
 	n.icfg = &config.IngestConfig{
 		MaxBufferSize: k.MaxBufferSize, MaxBufferAgeMS: k.MaxBufferAgeMS, Compression: "snappy",
 		WriteStatistics: true, DataPageVersion: "2.0", FlushWorkers: k.FlushWorkers, FlushQueueSize: k.FlushQueueSize,
@@ -135,7 +188,7 @@ func (n *node) boot() {
 	n.buf = ingest.NewArrowBuffer(n.icfg, fb, harnessLogger())
 	// The handler only uses its backend to compute the read_parquet path of
 	// the source measurement, which needs the concrete *LocalBackend.
-	cqh, err := api.NewContinuousQueryHandler(duck(), local, n.buf, n.cqcfg, nil, harnessLogger())
+	cqh, err := api.NewContinuousQueryHandler(duck(), local, n.buf, n.cqcfg, nil, zerolog.New(n.logs).Level(zerolog.InfoLevel))
 	if err != nil {
 		panic(fmt.Sprintf("HARNESS cq handler: %v", err))
 	}
